@@ -51,6 +51,9 @@ func throughVerifyAPREQ(c *engine.Ctx) {
 				{"sname-of-account", func(c *apworld.Case) { c.TktSName = []string{apworld.Account} }},
 				{"ticket-realm-changed", func(c *apworld.Case) { c.TktRealm = "OTHER.REALM" }},
 				{"kvno-omitted", func(c *apworld.Case) { c.TktKVNO = 0 }},
+				// the same name text in another split of components (renders to the same string)
+				{"sname-resplit-joined", func(c *apworld.Case) { c.TktSName = []string{"HTTP/" + apworld.SvcHost} }},
+				{"sname-resplit-empty-tail", func(c *apworld.Case) { c.TktSName = []string{"HTTP", apworld.SvcHost, ""} }},
 			}
 			for _, v := range variants {
 				if override == "" && (v.name == "sname-of-account" || v.name == "sname-case-changed") {
@@ -142,6 +145,46 @@ func throughVerifyAPREQ(c *engine.Ctx) {
 			c.Violate("apreq", "double-accept:after-6000-other-authenticators", map[string]interface{}{"first_presentation_called_replay": first}, map[string]interface{}{"history": "X, 3000 other authenticators of the same client, 3000 of other clients, X"})
 		} else {
 			c.Distinct("apreq/long-history")
+		}
+	}
+	// (d) the edge of the window through VerifyAPREQ: X accepted, the clock moves to just before / onto / just past
+	// the instant X stops passing the skew check (sub-second steps), clean-up runs with the same duration, X comes
+	// back. Whatever the reason given, X is not accepted a second time; the skew check and the cache's retention
+	// have to agree at every one of these instants. Client clocks ahead of / behind the service's included.
+	for _, d := range []time.Duration{2 * time.Second, 5 * time.Minute, 2500 * time.Millisecond} {
+		for _, ahead := range []time.Duration{0, 1500 * time.Millisecond, -1500 * time.Millisecond, d, -d} {
+			for _, step := range []time.Duration{-time.Second, -time.Nanosecond, 0, time.Nanosecond, time.Microsecond, 300 * time.Millisecond, 500 * time.Millisecond, 999 * time.Millisecond, time.Second, 1500 * time.Millisecond} {
+				for _, cleanup := range []bool{false, true} {
+					vclock.Virtual(apworld.T0)
+					service.VerifResetReplayCache()
+					s := service.NewSettings(kt, service.DecodePAC(false), service.MaxClockSkew(d))
+					cs := apworld.Base(18)
+					cs.CTime = ahead
+					m, err := w.Mint(cs)
+					if err != nil {
+						engine.Fatal("mint: %v", err)
+					}
+					rec := map[string]interface{}{"skew": d.String(), "client_clock_ahead_by": ahead.String(), "clock_moved_to_window_end_plus": step.String(), "cleanup_before_second_presentation": cleanup}
+					ok1, e1 := present(m.APReq, s)
+					n++
+					if !ok1 {
+						c.Violate("apreq", "valid-ap-req-rejected:window-edge", map[string]interface{}{"err": e1}, rec)
+						continue
+					}
+					// X passes the skew check while now <= ctime + d
+					vclock.Set(apworld.T0.Add(ahead + d + step))
+					if cleanup {
+						service.GetReplayCache(d).ClearOldEntries(d)
+					}
+					ok2, _ := present(m.APReq, s)
+					n++
+					if ok2 {
+						c.Violate("apreq", fmt.Sprintf("double-accept:window-edge:cleanup=%v", cleanup), nil, rec)
+						continue
+					}
+					c.Distinct(fmt.Sprintf("apreq/edge/%v/%v/%v/%v", d, ahead, step, cleanup))
+				}
+			}
 		}
 	}
 	c.Add("evaluations", n)
